@@ -2,7 +2,7 @@ package main
 
 // Facts consumed by Model/CronRec.lean (property C02): separators of the work-item key and of
 // the generated Job name, reserved label / annotation / finalizer strings, defaults.
-// Rigid shapes only; anything else fails the extraction.
+// Rigid shapes only; anything else fails the section the fact belongs to (sections.go).
 
 import (
 	"fmt"
@@ -204,49 +204,76 @@ func cronrecFacts(b *strings.Builder) {
 	const name = "pkg/execution/util/jobconfig/name.go"
 	const labels = "pkg/execution/util/jobconfig/labels.go"
 
-	keySep := sprintfSep(util, "JoinJobConfigKeyName")
-	nameSep := sprintfSep(name, "GenerateName")
-	splitSeps := callStringArg(util, "SplitJobConfigKeyName", "Split", 1)
-	joinSeps := callStringArg(util, "SplitJobConfigKeyName", "Join", 1)
-	if len(splitSeps) != 1 || len(joinSeps) != 1 {
-		failf("%s: SplitJobConfigKeyName: expected one strings.Split and one strings.Join", util)
-		splitSeps, joinSeps = []string{"?"}, []string{"?"}
-	}
-	minTokens := lenLessThan(util, "SplitJobConfigKeyName", "tokens")
-
-	group := strLit(constExpr("apis/execution/register.go", "GroupName"), "GroupName")
-	checkAddGroupToLabel()
-	annSchedule := groupLabel(labels, "AnnotationKeyScheduleTime", group)
-	labelUID := groupLabel(labels, "LabelKeyJobConfigUID", group)
-	finalizer := groupPlusLit("apis/execution/finalizers.go", "DeleteDependentsFinalizer", group)
-
-	defMaxConc := lastReturnInt("apis/execution/v1alpha1/jobconfig_types.go", "ConcurrencySpec", "GetMaxConcurrency")
-	defMaxEnq := structFieldPointerInt("pkg/config/defaults.go", "DefaultJobConfigExecutionConfig", "MaxEnqueuedJobs")
-
-	jobTypes := typedStringConsts("apis/execution/v1alpha1/job_types.go", "JobType")
-	policies := typedStringConsts("apis/execution/v1alpha1/jobconfig_types.go", "ConcurrencyPolicy")
-	need := func(m map[string]string, k string) string {
-		v, ok := m[k]
-		if !ok {
-			failf("constant %s not found", k)
+	keySep, splitSep, joinSep := "", "?", "?"
+	var minTokens int64
+	section("cronrec-key", func() {
+		keySep = sprintfSep(util, "JoinJobConfigKeyName")
+		splitSeps := callStringArg(util, "SplitJobConfigKeyName", "Split", 1)
+		joinSeps := callStringArg(util, "SplitJobConfigKeyName", "Join", 1)
+		if len(splitSeps) != 1 || len(joinSeps) != 1 {
+			failf("%s: SplitJobConfigKeyName: expected one strings.Split and one strings.Join", util)
+		} else {
+			splitSep, joinSep = splitSeps[0], joinSeps[0]
 		}
-		return v
-	}
-	kind := strLit(constExpr("apis/execution/v1alpha1/groupversion_info.go", "KindJobConfig"), "KindJobConfig")
+		minTokens = lenLessThan(util, "SplitJobConfigKeyName", "tokens")
+	})
+
+	nameSep, annSchedule, labelUID, finalizer, kind := "", "", "", "", ""
+	section("cronrec-names", func() {
+		nameSep = sprintfSep(name, "GenerateName")
+		group := strLit(constExpr("apis/execution/register.go", "GroupName"), "GroupName")
+		checkAddGroupToLabel()
+		annSchedule = groupLabel(labels, "AnnotationKeyScheduleTime", group)
+		labelUID = groupLabel(labels, "LabelKeyJobConfigUID", group)
+		finalizer = groupPlusLit("apis/execution/finalizers.go", "DeleteDependentsFinalizer", group)
+		kind = strLit(constExpr("apis/execution/v1alpha1/groupversion_info.go", "KindJobConfig"), "KindJobConfig")
+	})
+
+	var defMaxConc, defMaxEnq int64
+	section("cronrec-defaults", func() {
+		defMaxConc = lastReturnInt("apis/execution/v1alpha1/jobconfig_types.go", "ConcurrencySpec", "GetMaxConcurrency")
+		defMaxEnq = structFieldPointerInt("pkg/config/defaults.go", "DefaultJobConfigExecutionConfig", "MaxEnqueuedJobs")
+	})
+
+	enum := map[string]string{}
+	section("cronrec-enums", func() {
+		jobTypes := typedStringConsts("apis/execution/v1alpha1/job_types.go", "JobType")
+		policies := typedStringConsts("apis/execution/v1alpha1/jobconfig_types.go", "ConcurrencyPolicy")
+		need := func(m map[string]string, k string) {
+			v, ok := m[k]
+			if !ok {
+				failf("constant %s not found", k)
+			}
+			enum[k] = v
+		}
+		need(jobTypes, "JobTypeScheduled")
+		need(jobTypes, "JobTypeAdhoc")
+		need(policies, "ConcurrencyPolicyAllow")
+		need(policies, "ConcurrencyPolicyForbid")
+		need(policies, "ConcurrencyPolicyEnqueue")
+	})
 
 	b.WriteString("\n/-! C02 (cron reconciler key codec, Job naming, NewJobFromJobConfig) -/\n")
-	fmt.Fprintf(b, "/-- `JoinJobConfigKeyName`: `fmt.Sprintf(\"%%v<sep>%%v\", key, ts.Unix())` -/\ndef cronKeyJoinSep : Char := %s\n", leanChar(keySep))
-	fmt.Fprintf(b, "/-- `SplitJobConfigKeyName`: `strings.Split(key, sep)`, `len(tokens) < N` ⇒ error, `strings.Join(…, sep)` -/\n")
-	fmt.Fprintf(b, "def cronKeySplitSep : Char := %s\ndef cronKeyRejoinSep : Char := %s\ndef cronKeyMinTokens : Nat := %d\n", leanChar(splitSeps[0]), leanChar(joinSeps[0]), minTokens)
-	fmt.Fprintf(b, "/-- `GenerateName`: `fmt.Sprintf(\"%%v<sep>%%v\", jobConfigName, ts)` -/\ndef jobNameSep : Char := %s\n", leanChar(nameSep))
-	fmt.Fprintf(b, "def annotationKeyScheduleTime : String := %s\n", leanStr(annSchedule))
-	fmt.Fprintf(b, "def labelKeyJobConfigUID : String := %s\n", leanStr(labelUID))
-	fmt.Fprintf(b, "def deleteDependentsFinalizer : String := %s\n", leanStr(finalizer))
-	fmt.Fprintf(b, "def kindJobConfig : String := %s\n", leanStr(kind))
-	fmt.Fprintf(b, "/-- `ConcurrencySpec.GetMaxConcurrency` when unset -/\ndef defaultMaxConcurrency : Int := %d\n", defMaxConc)
-	fmt.Fprintf(b, "/-- `DefaultJobConfigExecutionConfig.MaxEnqueuedJobs` -/\ndef defaultMaxEnqueuedJobs : Int := %d\n", defMaxEnq)
-	fmt.Fprintf(b, "def jobTypeScheduled : String := %s\ndef jobTypeAdhoc : String := %s\n",
-		leanStr(need(jobTypes, "JobTypeScheduled")), leanStr(need(jobTypes, "JobTypeAdhoc")))
-	fmt.Fprintf(b, "def policyAllow : String := %s\ndef policyForbid : String := %s\ndef policyEnqueue : String := %s\n",
-		leanStr(need(policies, "ConcurrencyPolicyAllow")), leanStr(need(policies, "ConcurrencyPolicyForbid")), leanStr(need(policies, "ConcurrencyPolicyEnqueue")))
+	emit(b, "cronrec-key", func(b *strings.Builder) {
+		fmt.Fprintf(b, "/-- `JoinJobConfigKeyName`: `fmt.Sprintf(\"%%v<sep>%%v\", key, ts.Unix())` -/\ndef cronKeyJoinSep : Char := %s\n", leanChar(keySep))
+		fmt.Fprintf(b, "/-- `SplitJobConfigKeyName`: `strings.Split(key, sep)`, `len(tokens) < N` ⇒ error, `strings.Join(…, sep)` -/\n")
+		fmt.Fprintf(b, "def cronKeySplitSep : Char := %s\ndef cronKeyRejoinSep : Char := %s\ndef cronKeyMinTokens : Nat := %s\n", leanChar(splitSep), leanChar(joinSep), natLit(minTokens, "cronKeyMinTokens"))
+	})
+	emit(b, "cronrec-names", func(b *strings.Builder) {
+		fmt.Fprintf(b, "/-- `GenerateName`: `fmt.Sprintf(\"%%v<sep>%%v\", jobConfigName, ts)` -/\ndef jobNameSep : Char := %s\n", leanChar(nameSep))
+		fmt.Fprintf(b, "def annotationKeyScheduleTime : String := %s\n", leanStr(annSchedule))
+		fmt.Fprintf(b, "def labelKeyJobConfigUID : String := %s\n", leanStr(labelUID))
+		fmt.Fprintf(b, "def deleteDependentsFinalizer : String := %s\n", leanStr(finalizer))
+		fmt.Fprintf(b, "def kindJobConfig : String := %s\n", leanStr(kind))
+	})
+	emit(b, "cronrec-defaults", func(b *strings.Builder) {
+		fmt.Fprintf(b, "/-- `ConcurrencySpec.GetMaxConcurrency` when unset -/\ndef defaultMaxConcurrency : Int := %d\n", defMaxConc)
+		fmt.Fprintf(b, "/-- `DefaultJobConfigExecutionConfig.MaxEnqueuedJobs` -/\ndef defaultMaxEnqueuedJobs : Int := %d\n", defMaxEnq)
+	})
+	emit(b, "cronrec-enums", func(b *strings.Builder) {
+		fmt.Fprintf(b, "def jobTypeScheduled : String := %s\ndef jobTypeAdhoc : String := %s\n",
+			leanStr(enum["JobTypeScheduled"]), leanStr(enum["JobTypeAdhoc"]))
+		fmt.Fprintf(b, "def policyAllow : String := %s\ndef policyForbid : String := %s\ndef policyEnqueue : String := %s\n",
+			leanStr(enum["ConcurrencyPolicyAllow"]), leanStr(enum["ConcurrencyPolicyForbid"]), leanStr(enum["ConcurrencyPolicyEnqueue"]))
+	})
 }
